@@ -5,6 +5,7 @@ mod calendar;
 mod cli;
 mod convert;
 mod flow;
+mod gitrepo;
 mod order;
 mod pep440;
 mod render;
@@ -29,6 +30,8 @@ fn main() {
         ("record", "calendar") => calendar::record(rest),
         ("replay", "convert") => convert::replay(rest),
         ("record", "convert") => convert::record(rest),
+        ("replay", "gitrepo") => gitrepo::replay(rest),
+        ("record", "gitrepo") => gitrepo::record(rest),
         ("replay", "flow") => flow::replay(rest),
         ("record", "flow") => flow::record(rest),
         ("replay", "render") => render::replay(rest),
